@@ -5117,7 +5117,7 @@ impl<K: Introspect + Eq + Hash, V: Introspect, S: ::std::hash::BuildHasher> Intr
         }
     }
     fn introspect_len(&self) -> usize {
-        self.len()
+        self.len() * 2
     }
 }
 
@@ -5141,7 +5141,7 @@ impl<K: Introspect + Eq + Hash, V: Introspect, S: ::std::hash::BuildHasher> Intr
         }
     }
     default fn introspect_len(&self) -> usize {
-        self.len()
+        self.len() * 2
     }
 }
 
@@ -5225,7 +5225,7 @@ impl<K: Introspect, V: Introspect> Introspect for BTreeMap<K, V> {
         }
     }
     fn introspect_len(&self) -> usize {
-        self.len()
+        self.len() * 2
     }
 }
 
@@ -5436,7 +5436,7 @@ impl<K: Introspect + Eq + Hash, V: Introspect, S: ::std::hash::BuildHasher> Intr
     }
 
     fn introspect_len(&self) -> usize {
-        self.len()
+        self.len() * 2
     }
 }
 
@@ -5465,7 +5465,7 @@ impl<K: Introspect + Eq + Hash, V: Introspect, S: ::std::hash::BuildHasher> Intr
     }
 
     default fn introspect_len(&self) -> usize {
-        self.len()
+        self.len() * 2
     }
 }
 
